@@ -30,6 +30,9 @@ FLOORS = {"quick": {"grants": 20000, "advance_checks": 15000, "cancels_waiting":
                        "head_cancelled_with_follower": 4000, "deliveries_checked": 100000,
                        "equal_distinct_deliveries": 6000, "fcfs_checks": 60000, "level_checks": 1000000,
                        "filter_nomatch_waits": 4000, "prio_deliveries_from_4plus": 2000}}
+# floors for the situations added with the later rounds of seeded changes (evidence that they were really exercised)
+FLOORS["quick"].update({'priorityitem_puts': 3000, 'same_object_put_again': 1000})
+FLOORS["thorough"].update({'priorityitem_puts': 15000, 'same_object_put_again': 5000})
 GRID = [0, 0, 1, 1, 2, 3, 0.5]
 INF = float("inf")
 
